@@ -504,6 +504,11 @@ pub fn gen_reply(r: &mut Rng) -> Vec<u8> {
         // string with such a prefix follow
         let cut = r.below(out.len() as u64 + 1) as usize;
         out.truncate(cut);
+        // (no digit in front: the prefix must stay one that no allocator is even asked for - a request that can be tried and
+        // fails aborts the process instead of unwinding)
+        while out.last().map(|c| c.is_ascii_digit() || *c == b'-').unwrap_or(false) {
+            out.pop();
+        }
         out.extend_from_slice(if mode == 12 { b"18446744073709551615:abc" } else { b"9223372036854775808:" });
     }
     if mode == 11 {
